@@ -306,21 +306,6 @@ func tagFor(k fsCase, d *memdev.Dev) string {
 			return "iso-start-ignored"
 		}
 	}
-	if strings.HasPrefix(k.kind, "fat") {
-		// fat-maxcluster-from-fat-size: stray writes begin at or after the end of the volume (allocator handed out a cluster past the data area)
-		all := true
-		for _, o := range d.OutOfRange {
-			if o.Lo < k.start+k.size-int64(64*1024) || o.Lo < k.start {
-				all = false
-			}
-			if o.Hi <= k.start+k.size {
-				all = false
-			}
-		}
-		if all {
-			return "fat-maxcluster-from-fat-size"
-		}
-	}
 	return "-"
 }
 
